@@ -824,7 +824,10 @@ fn judge(case: &Case, o: &Observed) -> CheckResult {
                 fail!("C19/ppv2-wrong-client", "{}: its PROXY v2 prefix names source {}, the client's address is {client_addr}", what(c, s), p.src);
             }
             if p.dst != o.front {
-                if !case.strict && p.dst == o.backend_addrs[a.backend] {
+                // sozu documents its choice (lib/src/protocol/udp/proxy_protocol.rs: "The destination is the backend
+                // address") and the property says nothing about the prefix: both the listener and the backend address
+                // are admitted, any third address is not
+                if p.dst == o.backend_addrs[a.backend] {
                     excluded_dst += 1;
                 } else {
                     fail!(
@@ -842,7 +845,7 @@ fn judge(case: &Case, o: &Observed) -> CheckResult {
     }
     // known shapes left out by construction, one count per scenario each: the PROXY v2 destination is
     // compared with the backend's address too; the frontend is not removed while IP+port flows live
-    rep.excluded_known += u64::from(excluded_dst > 0) + u64::from(case.with_port && !case.unroute_live && !o.arrivals.is_empty());
+    rep.excluded_known += u64::from(case.with_port && !case.unroute_live && !o.arrivals.is_empty());
 
     // ---- (1) isolation: one upstream socket carries one client's flow
     let mut lives: Vec<Life> = vec![];
